@@ -2,6 +2,7 @@ package checks
 
 import (
 	"fmt"
+	"github.com/uhn/ggql/pkg/ggql"
 	"strings"
 
 	"verif/internal/back"
@@ -335,6 +336,11 @@ func runC10(c *run.Ctx) {
 					}
 					in.Cond = "NopeTypeZz"
 					offender = "NopeTypeZz"
+					if (p+i)%3 == 0 {
+						// a name that is defined - as a DIRECTIVE - is no type either
+						in.Cond = []string{"skip", "include", "deprecated"}[p%3]
+						offender = in.Cond
+					}
 				case "undefined-fragment-type":
 					spr, isSp := sel.(*model.Spread)
 					if !isSp {
@@ -346,6 +352,10 @@ func runC10(c *run.Ctx) {
 					}
 					fr.Cond = "NopeTypeZz"
 					offender = "NopeTypeZz"
+					if (p+i)%3 == 1 {
+						fr.Cond = []string{"skip", "include", "deprecated"}[p%3]
+						offender = fr.Cond
+					}
 				case "undefined-spread":
 					spr, isSp := sel.(*model.Spread)
 					if !isSp {
@@ -501,6 +511,7 @@ func runC10(c *run.Ctx) {
 	injected += c10Menagerie(c)
 	injected += c10Unbound(c)
 	injected += c10AfterFailedLoad(c)
+	injected += c10Subscription(c)
 	c.MinNontriv = injected / 2
 	c.Set("defects_injected", injected)
 }
@@ -961,6 +972,63 @@ func c10AfterFailedLoad(c *run.Ctx) int {
 		}
 		if diag != "" {
 			c.Violation("c10-field-of-a-failed-load", map[string]interface{}{"backend": kind, "sdl": sdl, "failed_load": failing, "load_error": lerr.Error(), "document": cs.request, "diag": diag, "observed": out.Describe()})
+		}
+	}
+	return done
+}
+
+// c10Subscription: a defect below the root field of a subscription is met when an event is resolved for that subscriber:
+// AddEvent is where "the response carries an error" then, whoever else is subscribed and in whatever order.
+func c10Subscription(c *run.Ctx) int {
+	defects := []struct{ sel, offender string }{
+		{`{ id nope_field_zz }`, "nope_field_zz"},
+		{`{ id n(zz_undeclared: 1) }`, "zz_undeclared"},
+		{`{ inner { v nope_field_zz } id }`, "nope_field_zz"},
+		{`{ id ... on NopeTypeZz { n } }`, "NopeTypeZz"},
+	}
+	done := 0
+	for di, d := range defects {
+		for order := 0; order < 3; order++ { // defective first, defective last, defective between two clean ones
+			var clock int64
+			lg := &subLog{cleanups: map[int][]int64{}, clock: &clock}
+			ro := &subRootObj{log: lg}
+			root := ggql.NewRoot(ro)
+			if err := root.ParseString(subSDL); err != nil {
+				c.Violation("c10-schema-rejected", map[string]interface{}{"error": err.Error()})
+				return done
+			}
+			var cur int64 = 1
+			texts := []string{"subscription { listen(topic: \"a\") { id n } }", "subscription { listen(topic: \"a\") " + d.sel + " }", "subscription { listen(topic: \"a\") { tag } }"}
+			seq := [][]int{{1, 0}, {0, 1}, {0, 1, 2}}[order]
+			rejectedAtSubscribe := false
+			for si, ti := range seq {
+				ro.pending = &hSub{sid: si, log: lg, failOn: map[int]bool{}, field: "listen", current: &cur}
+				res := root.ResolveString(texts[ti], "", nil)
+				if ti == 1 && res["errors"] != nil {
+					rejectedAtSubscribe = strings.Contains(fmt.Sprint(res["errors"]), d.offender)
+				}
+			}
+			done++
+			c.Eval(fmt.Sprintf("subscription-defect|%d|%d", di, order), true)
+			c.Bucket("container", "subscription-event")
+			if rejectedAtSubscribe {
+				c.Count("defective_subscription_refused_when_made", 1)
+				continue // reported even earlier: fine
+			}
+			var aerr error
+			pv, _ := run.Protect(func() { _, aerr = root.AddEvent("a", &subEvent{uid: 1, id: "e1", n: 5, tag: "t", v: 2}) })
+			diag := ""
+			switch {
+			case pv != nil:
+				diag = fmt.Sprintf("AddEvent panics: %v", pv)
+			case aerr == nil:
+				diag = "no error reported for the defect when the event was resolved for the subscriber"
+			case !strings.Contains(aerr.Error(), d.offender):
+				diag = "no error message names the offender: " + clip(aerr.Error(), 300)
+			}
+			if diag != "" {
+				c.Violation("c10-subscription-event", map[string]interface{}{"subscriptions_in_order": seq, "defective_subscription": texts[1], "offender": d.offender, "diag": diag})
+			}
 		}
 	}
 	return done
